@@ -8,7 +8,13 @@
 use std::fmt::Display;
 use std::panic::{catch_unwind, AssertUnwindSafe};
 
+use tyme4rs::tyme::culture::peng_zu::PengZu;
 use tyme4rs::tyme::culture::star::nine::NineStar;
+use tyme4rs::tyme::culture::star::twelve::TwelveStar;
+use tyme4rs::tyme::culture::star::twenty_eight::TwentyEightStar;
+use tyme4rs::tyme::culture::KitchenGodSteed;
+use tyme4rs::tyme::eightchar::provider::{ChildLimitProvider, China95ChildLimitProvider, DefaultChildLimitProvider, LunarSect1ChildLimitProvider, LunarSect2ChildLimitProvider};
+use tyme4rs::tyme::solar::{SolarHalfYear, SolarSeason};
 use tyme4rs::tyme::culture::{Animal, Constellation, Direction, Duty, Element, God, Phase, Sound, Taboo, Ten, Terrain, Week, Zodiac};
 use tyme4rs::tyme::eightchar::{ChildLimit, DecadeFortune, EightChar, Fortune};
 use tyme4rs::tyme::enums::Gender;
@@ -540,6 +546,82 @@ fn q_cycle(a: &[i64]) -> Result<String, String> {
   })
 }
 
+fn q_sw(a: &[i64]) -> Result<String, String> {
+  let w = SolarWeek::new(i(a[0]), u(a[1]), u(a[2]), u(a[3]))?;
+  Ok(format!("{} idx={} iy={} first={} {}", w, w.get_index(), w.get_index_in_year(), r_sd(&w.get_first_day()), join(&w.get_days(), |d| r_sd(d))))
+}
+
+fn q_sw_next(a: &[i64]) -> Result<String, String> {
+  let w = SolarWeek::from_ym(i(a[0]), u(a[1]), u(a[2]), u(a[3])).next(i(a[4]));
+  Ok(format!("{} {} {} idx={} first={}", w.get_year(), w.get_month(), w, w.get_index(), r_sd(&w.get_first_day())))
+}
+
+fn q_sm_days(a: &[i64]) -> Result<String, String> {
+  let m = SolarMonth::new(i(a[0]), u(a[1]))?;
+  let n = m.next(i(a[2]));
+  Ok(format!("{} -> {} {} {} season={} {}", m, n.get_year(), n.get_month(), n.get_index_in_year(), n.get_season(), join(&n.get_days(), |d| r_sd(d))))
+}
+
+fn q_ss(a: &[i64]) -> Result<String, String> {
+  let s = SolarSeason::new(i(a[0]), u(a[1]))?;
+  let h = SolarHalfYear::new(i(a[0]), u(a[1]) / 2)?;
+  Ok(format!("{} {} {} {} {} {}", s, join(&s.get_months(), |m| m.to_string()), s.next(i(a[2])), h, join(&h.get_seasons(), |x| x.to_string()), h.next(i(a[2]))))
+}
+
+fn q_taboo(a: &[i64]) -> Result<String, String> {
+  let m = SixtyCycle::from_index(i(a[0]));
+  let d = SixtyCycle::from_index(i(a[1]));
+  Ok(format!("{} {} {}", gods(&God::get_day_gods(m.clone(), d.clone())), taboos(&Taboo::get_day_recommends(m.clone(), d.clone())), taboos(&Taboo::get_day_avoids(m, d))))
+}
+
+fn q_taboo_hour(a: &[i64]) -> Result<String, String> {
+  let d = SixtyCycle::from_index(i(a[0]));
+  let h = SixtyCycle::from_index(i(a[1]));
+  Ok(format!("{} {}", taboos(&Taboo::get_hour_recommends(d.clone(), h.clone())), taboos(&Taboo::get_hour_avoids(d, h))))
+}
+
+/// The four shipped child-limit strategies, called directly (not through the provider mutex).
+fn q_provider(a: &[i64]) -> Result<String, String> {
+  let t = SolarTime::from_ymd_hms(i(a[1]), u(a[2]), u(a[3]), u(a[4]), u(a[5]), u(a[6]));
+  let mut term: SolarTerm = t.get_term();
+  if !term.is_jie() {
+    term = term.next(-1);
+  }
+  if a[7] != 0 {
+    term = term.next(2);
+  }
+  let info = match a[0] {
+    0 => DefaultChildLimitProvider::new().get_info(t, term),
+    1 => China95ChildLimitProvider::new().get_info(t, term),
+    2 => LunarSect1ChildLimitProvider::new().get_info(t, term),
+    _ => LunarSect2ChildLimitProvider::new().get_info(t, term),
+  };
+  Ok(format!("INFO(y={} m={} d={} h={} mi={} start={} end={})", info.get_year_count(), info.get_month_count(), info.get_day_count(), info.get_hour_count(), info.get_minute_count(), r_st(&info.get_start_time()), r_st(&info.get_end_time())))
+}
+
+fn q_star(a: &[i64]) -> Result<String, String> {
+  let n = i(a[1]);
+  Ok(match a[0] {
+    0 => {
+      let s = TwentyEightStar::from_index(n);
+      format!("{} {} {} {} {} {}", s, s.get_seven_star(), s.get_land(), s.get_zone(), s.get_animal(), s.get_luck())
+    }
+    1 => {
+      let s = NineStar::from_index(n);
+      format!("{} {} {} {} {}", s, s.get_color(), s.get_element(), s.get_dipper(), s.get_direction())
+    }
+    2 => {
+      let s = TwelveStar::from_index(n);
+      format!("{} {} {}", s, s.get_ecliptic(), s.get_ecliptic().get_luck())
+    }
+    3 => PengZu::from_sixty_cycle(SixtyCycle::from_index(n)).to_string(),
+    _ => {
+      let k = KitchenGodSteed::from_lunar_year(n);
+      format!("{} {} {} {} {} {} {} {} {} {} {} {} {} {}", k.get_mouse(), k.get_grass(), k.get_cattle(), k.get_flower(), k.get_dragon(), k.get_horse(), k.get_chicken(), k.get_silkworm(), k.get_pig(), k.get_field(), k.get_cake(), k.get_gold(), k.get_people_cakes(), k.get_people_hoes())
+    }
+  })
+}
+
 pub static KINDS: &[KindDef] = &[
   KindDef { name: "LM.from_ym", arity: 2, exec: q_lm_from_ym, family: FAM_LM, cost: 0 },
   KindDef { name: "LM.new", arity: 2, exec: q_lm_new, family: FAM_LM, cost: 0 },
@@ -587,6 +669,14 @@ pub static KINDS: &[KindDef] = &[
   KindDef { name: "LD.step", arity: 4, exec: q_ld_step, family: FAM_LD, cost: 0 },
   KindDef { name: "LH.step", arity: 7, exec: q_lh_step, family: FAM_LH, cost: 0 },
   KindDef { name: "LD.hour", arity: 4, exec: q_ld_hour, family: FAM_LD, cost: 1 },
+  KindDef { name: "SW", arity: 4, exec: q_sw, family: FAM_SD, cost: 0 },
+  KindDef { name: "SW.next", arity: 5, exec: q_sw_next, family: FAM_SD, cost: 0 },
+  KindDef { name: "SM.days", arity: 3, exec: q_sm_days, family: FAM_SD, cost: 1 },
+  KindDef { name: "SS", arity: 3, exec: q_ss, family: FAM_SD, cost: 0 },
+  KindDef { name: "TABOO", arity: 2, exec: q_taboo, family: FAM_SC, cost: 1 },
+  KindDef { name: "TABOO.hour", arity: 2, exec: q_taboo_hour, family: FAM_SC, cost: 1 },
+  KindDef { name: "PROVIDER", arity: 8, exec: q_provider, family: FAM_EC, cost: 1 },
+  KindDef { name: "STAR", arity: 2, exec: q_star, family: FAM_SC, cost: 0 },
 ];
 
 pub fn kind_by_name(name: &str) -> Option<usize> {
